@@ -92,7 +92,7 @@ def outgoing(req, k, fence=False):
     if req.get("garbage") is not None:
         return GARBAGE[req["garbage"] % len(GARBAGE)]
     rid = G.idval(req["id"])
-    method = req.get("method") or ("tools/list" if req["id"] is not None else "notifications/initialized")
+    method = req["method"] if req.get("method") is not None else ("tools/list" if req["id"] is not None else "notifications/initialized")
     shape = req.get("shape")
     if shape in ("specific", "wrapper"):
         # the library's other message classes: the specific request / notification types and the compatibility wrapper
@@ -554,7 +554,9 @@ def determined_headers(case):
     a session id was issued on an accepted response before POST k, and no error-status answer
     has offered another one since; with the value the property demands"""
     out = {}
-    last, clean = None, True
+    # a session id configured through the parameters (the documented reconnect option) plays the part of the last
+    # issued one until the server issues another (an empty string configures nothing)
+    last, clean = (case.get("session0") or None), True
     behaviours = [case["reqs"][k]["b"] for k in send_order(case)] + [None]
     for k, b in enumerate(behaviours):
         if last is not None and clean:
